@@ -23,10 +23,10 @@ VARIABLES l, resyncs
 tvars == <<vars, l, resyncs>>
 
 ToSet(s) == {s[i] : i \in 1..Len(s)}
-Ent(j) == E(j.kind, j.cls, j.ts, j.sess, j.cmid, j.exp)
+Ent(j) == EM(j.kind, j.cls, j.ts, j.sess, j.cmid, j.exp, j.ms)
 St(j) == [sess |-> ToSet(j.sess), marks |-> ToSet(j.marks),
           marker |-> [s \in ToSet(j.sess) |-> (CHOOSE p \in ToSet(j.marker) : p[1] = s)[2]],
-          rev |-> j.rev, cexp |-> j.cexp]
+          rev |-> j.rev, cexp |-> j.cexp, maxs |-> j.maxs]
 LssOf(js) == [k \in {js[i].k : i \in 1..Len(js)} |-> St((CHOOSE x \in ToSet(js) : x.k = k).st)]
 SnapsOf(js) == [i \in 1..Len(js) |-> [ridx |-> js[i].ridx, li |-> js[i].li, base |-> St(js[i].base),
                                       retained |-> ToSet(js[i].retained)]]
